@@ -152,20 +152,26 @@ Proof.
   apply write_int_length_some in E as [H1 ->]. intros H. inj H. auto.
 Qed.
 
-Lemma reads_string s e : write_string s = Some e -> reads p_string e s.
+Lemma reads_utf8 s : text_ok s -> reads (p_utf8 s) [] s.
+Proof. intros H. unfold p_utf8. rewrite H. apply reads_ret. Qed.
+Lemma reads_string s e : text_ok s -> write_string s = Some e -> reads p_string e s.
 Proof.
-  intros H. apply short_prefixed_some in H as [Hl ->]. unfold p_string.
-  eapply reads_then; [apply reads_short, Hl|]. apply reads_take. reflexivity.
+  intros Hu H. apply short_prefixed_some in H as [Hl ->]. unfold p_string.
+  eapply reads_then; [apply reads_short, Hl|].
+  eapply reads_then_nil; [apply reads_take; reflexivity|apply reads_utf8, Hu].
 Qed.
 Lemma reads_short_bytes s e : write_short_bytes s = Some e -> reads p_short_bytes e s.
-Proof. exact (reads_string s e). Qed.
-
-Lemma reads_long_string s e : write_long_string s = Some e -> reads p_long_string e s.
 Proof.
-  intros H. apply int_prefixed_some in H as [Hl ->]. unfold p_long_string.
+  intros H. apply short_prefixed_some in H as [Hl ->]. unfold p_short_bytes.
+  eapply reads_then; [apply reads_short, Hl|]. apply reads_take. reflexivity.
+Qed.
+
+Lemma reads_long_string s e : text_ok s -> write_long_string s = Some e -> reads p_long_string e s.
+Proof.
+  intros Hu H. apply int_prefixed_some in H as [Hl ->]. unfold p_long_string.
   eapply reads_then; [apply reads_int_len, Hl|].
   destruct (Z.ltb_spec (Z.of_N (blen s)) 0) as [Hn|_]; [lia|].
-  rewrite N2Z.id. apply reads_take. reflexivity.
+  rewrite N2Z.id. eapply reads_then_nil; [apply reads_take; reflexivity|apply reads_utf8, Hu].
 Qed.
 Lemma reads_bytes_some b e : write_bytes b = Some e -> reads p_bytes e (Some b).
 Proof.
@@ -341,32 +347,34 @@ Proof.
 Qed.
 
 (* ---------- string lists / maps / events ---------- *)
-Lemma reads_strings l : forall e, write_strings l = Some e ->
+Lemma reads_strings l : Forall text_ok l -> forall e, write_strings l = Some e ->
   reads (p_repeat p_string (List.length l)) e l.
 Proof.
-  induction l as [|s l IH]; intros e H; cbn [write_strings] in H.
+  induction l as [|s l IH]; intros Hu e H; cbn [write_strings] in H.
   - inj H. apply reads_ret.
   - destruct (write_string s) as [a|] eqn:Es; [|discriminate].
     destruct (write_strings l) as [b|] eqn:El; [|discriminate]. inj H.
+    apply Forall_cons_iff in Hu as [Hs Hl].
     cbn [List.length p_repeat].
-    eapply reads_then; [apply reads_string, Es|]. apply reads_map. apply IH. reflexivity.
+    eapply reads_then; [apply reads_string; [exact Hs|exact Es]|]. apply reads_map. apply IH; [exact Hl|reflexivity].
 Qed.
 
 Definition p_pair : reader (bytes * bytes) := k <- p_string ;; v <- p_string ;; rret (k, v).
-Lemma reads_pairs l : forall e, write_pairs l = Some e ->
+Lemma reads_pairs l : Forall (fun kv => text_ok (fst kv) /\ text_ok (snd kv)) l -> forall e, write_pairs l = Some e ->
   reads (p_repeat p_pair (List.length l)) e l.
 Proof.
-  induction l as [|[k v] l IH]; intros e H; cbn [write_pairs] in H.
+  induction l as [|[k v] l IH]; intros Hu e H; cbn [write_pairs] in H.
   - inj H. apply reads_ret.
   - destruct (write_string k) as [a|] eqn:Ek; [|discriminate].
     destruct (write_string v) as [b|] eqn:Ev; [|discriminate].
     destruct (write_pairs l) as [c|] eqn:El; [|discriminate]. inj H.
+    apply Forall_cons_iff in Hu as [[Hk Hv] Hl]. cbn [fst snd] in Hk, Hv.
     cbn [List.length p_repeat].
     rewrite app_assoc.
     eapply reads_then.
-    + unfold p_pair. eapply reads_then; [apply reads_string, Ek|].
-      apply (reads_map p_string (fun v => (k, v))). apply reads_string, Ev.
-    + apply reads_map. apply IH. reflexivity.
+    + unfold p_pair. eapply reads_then; [apply reads_string; [exact Hk|exact Ek]|].
+      apply (reads_map p_string (fun v => (k, v))). apply reads_string; [exact Hv|exact Ev].
+    + apply reads_map. apply IH; [exact Hl|reflexivity].
 Qed.
 
 Lemma p_event_name e : p_event (event_name e) = Some e.
@@ -387,16 +395,16 @@ Proof.
   replace (List.length a + 2 - List.length a)%nat with 2%nat by lia. reflexivity.
 Qed.
 
-Lemma reads_batch_query s v sb cb :
+Lemma reads_batch_query s v sb cb : stmt_wf s ->
   ser_stmt s = Ok sb -> ser_cells v = Some cb -> N.of_nat (List.length v) < 65536 ->
   reads p_batch_query (sb ++ be 2 (N.of_nat (List.length v)) ++ cb) (s, v).
 Proof.
-  intros Hs Hc Hl. unfold p_batch_query.
-  destruct s as [t|id]; cbn [ser_stmt] in Hs.
+  intros Hw Hs Hc Hl. unfold p_batch_query.
+  destruct s as [t|id]; cbn [ser_stmt stmt_wf] in Hs, Hw.
   - destruct (write_long_string t) as [b|] eqn:Et; [|discriminate]. inj Hs.
     change (0 :: b) with ([0] ++ b). rewrite <- !app_assoc.
     eapply reads_then; [apply reads_byte|]. cbv iota.
-    eapply reads_then; [apply (reads_map p_long_string SQuery), reads_long_string, Et|].
+    eapply reads_then; [apply (reads_map p_long_string SQuery), reads_long_string; [exact Hw|exact Et]|].
     apply (reads_map p_values (fun vals => (SQuery t, vals))). apply reads_values; assumption.
   - destruct (write_short_bytes id) as [b|] eqn:Et; [|discriminate]. inj Hs.
     change (1 :: b) with ([1] ++ b). rewrite <- !app_assoc.
@@ -412,12 +420,12 @@ Lemma batch_loop_ok stmts : forall idx nser n vals body unused nser',
   batch_loop idx nser n stmts vals = Ok (body, unused, nser') ->
   exists used, vals = used ++ unused /\ List.length used = List.length stmts /\
     nser' = nser + N.of_nat (List.length stmts) /\
-    reads (p_repeat p_batch_query (List.length stmts)) body (combine stmts used).
+    (Forall stmt_wf stmts -> reads (p_repeat p_batch_query (List.length stmts)) body (combine stmts used)).
 Proof.
   induction stmts as [|s ss IH]; intros idx nser n vals body unused nser' H; cbn [batch_loop] in H.
   - apply ok_inj in H. injection H as <- <- <-. exists []. split; [reflexivity|]. split; [reflexivity|]. split.
     + cbn [List.length]. lia.
-    + apply reads_ret.
+    + intros _. apply reads_ret.
   - destruct (ser_stmt s) as [sb|] eqn:Es; [|discriminate].
     destruct vals as [|v vs]; [discriminate|].
     destruct (ser_cells v) as [cb|] eqn:Ec; [|discriminate].
@@ -427,10 +435,11 @@ Proof.
     apply IH in Er as (used & -> & Hlen & -> & Hr).
     exists (v :: used). split; [reflexivity|]. split; [cbn [List.length]; lia|]. split.
     + cbn [List.length]. lia.
-    + cbn [List.length p_repeat combine].
+    + intros Hw. apply Forall_cons_iff in Hw as [Hws Hwss].
+      cbn [List.length p_repeat combine].
       rewrite patch2_app by (rewrite be_eq; apply be_enc_length).
       eapply reads_then; [apply reads_batch_query; eassumption|].
-      apply reads_map. exact Hr.
+      apply reads_map. exact (Hr Hwss).
 Qed.
 
 Lemma map_fst_combine {A B} (l : list A) : forall (m : list B),
@@ -452,11 +461,11 @@ Proof.
 Qed.
 
 Lemma reads_batch bt stmts vals c sc ts body :
-  opt_ok i64_ok ts -> ser_batch bt stmts vals c sc ts = Ok body ->
+  Forall stmt_wf stmts -> opt_ok i64_ok ts -> ser_batch bt stmts vals c sc ts = Ok body ->
   reads (p_request false 13) body (Batch bt stmts vals c sc ts) /\
   reads (p_request true 13) body (Batch bt stmts vals c sc ts).
 Proof.
-  intros Hts H. unfold ser_batch in H.
+  intros Hst Hts H. unfold ser_batch in H.
   destruct (N.of_nat (List.length stmts) <? 65536) eqn:En; [|discriminate]. apply N.ltb_lt in En.
   destruct (batch_loop 0 0 (N.of_nat (List.length stmts)) stmts vals) as [[[lb un] nser]|] eqn:El;
     [|discriminate].
@@ -474,7 +483,7 @@ Proof.
     eapply reads_then; [apply reads_byte|].
     eapply (reads_then0 _ _ _ bt); [destruct bt; exact (reads_ret _)|].
     eapply reads_then; [apply reads_short, En|]. rewrite Nat2N.id.
-    eapply reads_then; [exact Hr|].
+    eapply reads_then; [exact (Hr Hst)|].
     eapply reads_then; [apply reads_consistency|].
     eapply reads_then; [apply reads_byte|].
     rewrite Hm, H4, H5. cbn [negb].
@@ -496,12 +505,12 @@ Proof.
     destruct (mk_values (qp_values p)) as [[cnt blob]|] eqn:Ev; [|discriminate].
     destruct (write_long_string text) as [a|] eqn:Et; [|discriminate].
     destruct (ser_qparams p (cnt, blob)) as [b|] eqn:Ep; [|discriminate]. inj H.
-    unfold p_request. cbv iota.
-    eapply reads_then; [apply reads_long_string, Et|].
+    unfold p_request. cbv iota. destruct Hwf as [Hu Hwf].
+    eapply reads_then; [apply reads_long_string; [exact Hu|exact Et]|].
     apply (reads_map p_qparams (Query text)). eapply reads_qparams; eassumption.
   - (* PREPARE *)
     destruct (write_long_string text) as [a|] eqn:Et; [|discriminate]. inj H.
-    unfold p_request. cbv iota. apply (reads_map p_long_string Prepare). apply reads_long_string, Et.
+    unfold p_request. cbv iota. apply (reads_map p_long_string Prepare). apply reads_long_string; [exact Hwf|exact Et].
   - (* EXECUTE *)
     destruct (mk_values (qp_values p)) as [[cnt blob]|] eqn:Ev; [|discriminate].
     destruct (write_short_bytes id) as [a|] eqn:Ei; [|discriminate].
@@ -513,7 +522,8 @@ Proof.
     eapply reads_then; [apply reads_opt_short_bytes, Em|].
     apply (reads_map p_qparams (Execute id m)). eapply reads_qparams; eassumption.
   - (* BATCH *)
-    destruct (reads_batch bt stmts vals c sc ts body Hwf H) as [Hf Ht]. destruct mid; assumption.
+    destruct Hwf as [Hst Hts].
+    destruct (reads_batch bt stmts vals c sc ts body Hst Hts H) as [Hf Ht]. destruct mid; assumption.
   - (* STARTUP *)
     destruct (write_string_map opts) as [a|] eqn:Eo; [|discriminate]. inj H.
     unfold write_string_map in Eo.
@@ -522,7 +532,7 @@ Proof.
     apply write_short_length_some in Eh as [Hl ->].
     unfold p_request. cbv iota.
     eapply reads_then; [apply reads_short, Hl|]. rewrite Nat2N.id.
-    apply (reads_map _ Startup). apply (reads_pairs opts b Eb).
+    apply (reads_map _ Startup). apply (reads_pairs opts Hwf b Eb).
   - (* REGISTER *)
     destruct (write_string_list (map event_name evs)) as [a|] eqn:Eo; [|discriminate]. inj H.
     unfold write_string_list in Eo. rewrite map_length in Eo.
@@ -531,7 +541,8 @@ Proof.
     apply write_short_length_some in Eh as [Hl ->].
     unfold p_request. cbv iota.
     eapply reads_then; [apply reads_short, Hl|]. rewrite Nat2N.id.
-    apply reads_strings in Eb. rewrite map_length in Eb.
+    apply reads_strings in Eb; [|apply Forall_forall; intros x Hx; apply in_map_iff in Hx as (e & <- & _);
+                                  destruct e; vm_compute; reflexivity]. rewrite map_length in Eb.
     eapply reads_then_nil; [exact Eb|].
     rewrite p_events_names. apply reads_ret.
   - (* OPTIONS *)
@@ -1399,4 +1410,63 @@ Proof.
     + unfold mk_values. cbn [plain_params qp_values ser_cells ser_cell]. rewrite E. reflexivity.
     + unfold ser_batch. cbn [List.length]. change (N.of_nat 1 <? 65536) with true. cbv iota.
       cbn [batch_loop ser_stmt]. unfold write_long_string, write_int_length. rewrite E. reflexivity.
+Qed.
+
+(* ---------- the row theorems instantiated with C01's value codec ---------- *)
+Lemma blen_is_Cql_blen b : Cql.blen b = blen b.
+Proof. reflexivity. Qed.
+
+(* the tie's value universe IS C01's codec on those carriers (also for mismatched types and for
+   contents of 2^31 bytes or more) *)
+Theorem mini_ser_is_C01 v t : mini_ser v t = c01_vser (mval_cell v) (mty_ctype t).
+Proof.
+  destruct v as [z|b|b| |], t; cbn [mini_ser mval_cell mty_ctype c01_vser Cql.ser_value]; try reflexivity.
+  - rewrite sbe_eq. reflexivity.
+  - unfold Cql.set_value, Cql.i32_max. change (Cql.blen b) with (blen b).
+    destruct (blen b <? 2147483648) eqn:E.
+    + apply N.ltb_lt in E. destruct (2147483647 <? blen b) eqn:F; [apply N.ltb_lt in F; lia|reflexivity].
+    + apply N.ltb_ge in E. destruct (2147483647 <? blen b) eqn:F; [reflexivity|apply N.ltb_ge in F; lia].
+  - unfold Cql.set_value, Cql.i32_max. change (Cql.blen b) with (blen b).
+    destruct (blen b <? 2147483648) eqn:E.
+    + apply N.ltb_lt in E. destruct (2147483647 <? blen b) eqn:F; [apply N.ltb_lt in F; lia|reflexivity].
+    + apply N.ltb_ge in E. destruct (2147483647 <? blen b) eqn:F; [reflexivity|apply N.ltb_ge in F; lia].
+Qed.
+
+(* what the frame carries for a cell bound through C01's codec is exactly C01's [value] bytes *)
+Theorem c01_cell_wire c t rc wire : c01_vser c t = Some rc -> ser_cell rc = Some wire ->
+  Cql.ser_cell t c = Ok wire.
+Proof.
+  destruct c as [| |v]; cbn [c01_vser]; intros H W.
+  - inj H. cbn [ser_cell] in W. inj W. reflexivity.
+  - inj H. cbn [ser_cell] in W. inj W. reflexivity.
+  - unfold Cql.ser_cell, Cql.ser_cell_ws. destruct (Cql.ser_value true t v) as [b|e] eqn:E; [|discriminate].
+    inj H. cbn [rbind]. cbn [ser_cell] in W.
+    destruct (blen b <? 2147483648); [|discriminate]. inj W.
+    unfold Cql.framed, Cql.be32. change (Cql.blen b) with (blen b). rewrite be_eq. reflexivity.
+Qed.
+
+Lemma ser_cells_nth l : forall blob i rc, ser_cells l = Some blob -> nth_error l i = Some rc ->
+  exists wire, ser_cell rc = Some wire.
+Proof.
+  induction l as [|c l IH]; intros blob i rc H Hn; [destruct i; discriminate|].
+  cbn [ser_cells] in H. destruct (ser_cell c) as [a|] eqn:Ec; [|discriminate].
+  destruct (ser_cells l) as [b|] eqn:El; [|discriminate].
+  destruct i as [|i]; cbn [nth_error] in Hn.
+  - apply some_inj in Hn. subst rc. eauto.
+  - exact (IH b i rc eq_refl Hn).
+Qed.
+
+(* rows of CqlValues bound through C01's codec: every [value] of the frame is C01's encoding, for
+   the marker's column type, of the value the caller supplied for that marker *)
+Theorem values_are_C01 cols r cells blob :
+  bind_row Cql.cell Cql.ctype c01_vser cols r = Ok cells -> ser_cells cells = Some blob ->
+  List.length cells = List.length cols /\
+  forall i name t, nth_error cols i = Some (name, t) ->
+    exists c rc wire, supplied Cql.cell r i name = Some c /\ nth_error cells i = Some rc /\
+                      ser_cell rc = Some wire /\ Cql.ser_cell t c = Ok wire.
+Proof.
+  intros Hb Hs. destruct (bind_row_ok _ _ _ cols r cells Hb) as ([L B] & _ & _).
+  split; [exact L|]. intros i name t Hn. destruct (B i name t Hn) as (c & rc & Hc & Hv & Hrc).
+  destruct (ser_cells_nth cells blob i rc Hs Hrc) as [wire Hw].
+  exists c, rc, wire. repeat split; try assumption. exact (c01_cell_wire c t rc wire Hv Hw).
 Qed.
